@@ -14,7 +14,7 @@ C06 ops.
     the spent script are those that were signed, and every signed preimage is unchanged.
 
     c06_guards coin tx us      missing_unspent(i) for every i, missing_unspents(), and which is_solution_ok(i) are refused by the guard
-    c06_cache hts              one checksigs execution: the messages handed to verify and the hash types actually computed
+    c06_cache salt hts         one checksigs execution (the closure returns ht*7+salt): the messages handed to verify and the hash types actually computed
 -/
 namespace Pycoin.Driver.C06
 open Pycoin Pycoin.Driver Pycoin.DriverLib Pycoin.Sighash Pycoin.Validate
@@ -154,9 +154,10 @@ def handle : Handler := fun op args =>
     let mu := (List.range (n + 2)).map fun i => if missingUnspent st i then '1' else '0'
     let guard := (List.range (n + 2)).map fun i => if decide (st.us.length ≤ i) || (st.us[i]?.join).isNone then '1' else '0'
     some s!"ok {String.ofList mu} {if missingUnspents st then 1 else 0} {String.ofList guard}"
-  | "c06_cache", [hts] => do
+  | "c06_cache", [salt, hts] => do
+    let salt ← parseNat? salt
     let hts ← parseList? parseNat? hts
-    let f := fun ht : Nat => ht * 7 + 1
+    let f := fun ht : Nat => ht * 7 + salt
     -- `checksigs` pops the signatures from the end of the list
     let order := hts.reverse
     let vals := runCached f [] order
